@@ -695,3 +695,75 @@ pub fn shaped_dom(rng: &mut StdRng, xml_safe: bool, scale: bool) -> WeakDom {
     }
     dom
 }
+
+/// Forests far above the size the specification's judges can take apart: they hold only values that both formats
+/// return exactly as written (no normalisation applies), so "the same forest came back" is equality of the two
+/// projections, compared through a fingerprint.
+pub fn huge_dom(rng: &mut StdRng, kind: usize) -> WeakDom {
+    let mut dom = WeakDom::new(InstanceBuilder::new("DataModel"));
+    let root = dom.root_ref();
+    match kind % 4 {
+        0 => {
+            // tens of thousands of instances of one class: every interleaved array of the class is long
+            let n = rng.gen_range(16_500..18_000);
+            let mut all = vec![root];
+            for i in 0..n {
+                let parent = if i % 3 == 0 { all[rng.gen_range(0..all.len())] } else { root };
+                // every instance of the class carries the same property set (a lacking one would gain defaults)
+                let b = InstanceBuilder::new("VerifHugeA")
+                    .with_name(format!("h{}", i))
+                    .with_property("UInt32", Variant::Int32(i as i32 * 7919 - 5))
+                    .with_property("UInt64", Variant::Int64(i as i64 * 1_000_003 - (1i64 << 40)))
+                    .with_property("UBool", Variant::Bool(i % 10 == 0))
+                    .with_property("URef", Variant::Ref(Ref::none()));
+                let r = dom.insert(parent, b);
+                if i < 4000 {
+                    all.push(r);
+                }
+            }
+            for i in (1..all.len()).step_by(17) {
+                let t = all[rng.gen_range(1..all.len())];
+                dom.get_by_ref_mut(all[i]).unwrap().properties.insert("URef".into(), Variant::Ref(t));
+            }
+        }
+        1 => {
+            // values of more than a mebibyte
+            let text: String = (0..(1usize << 20) + 37).map(|i| (b'a' + (i % 26) as u8) as char).collect();
+            dom.insert(root, InstanceBuilder::new("StringValue").with_name("BigText").with_property("Value", Variant::String(text)));
+            let blob: Vec<u8> = (0..2_600_000usize).map(|i| (i * 131 % 256) as u8).collect();
+            let shared: Vec<u8> = (0..1_300_000usize).map(|i| (i * 17 % 251) as u8).collect();
+            dom.insert(
+                root,
+                InstanceBuilder::new("VerifHugeB")
+                    .with_name("BigBlobs")
+                    .with_property("UBinaryString", Variant::BinaryString(blob.into()))
+                    .with_property("USharedString", Variant::SharedString(SharedString::new(shared))),
+            );
+        }
+        2 => {
+            // sequences with more than 65 535 keypoints, as a property and inside an attribute blob
+            let n = 66_000;
+            let seq = NumberSequence { keypoints: (0..n).map(|i| NumberSequenceKeypoint::new(i as f32 / n as f32, (i % 11) as f32, (i % 4) as f32 * 0.25)).collect() };
+            dom.insert(root, InstanceBuilder::new("VerifHugeC").with_name("LongSeq").with_property("UNumberSequence", Variant::NumberSequence(seq.clone())));
+            let mut attrs = Attributes::new();
+            attrs.insert("Long".to_string(), Variant::NumberSequence(seq));
+            attrs.insert("After".to_string(), Variant::Bool(true));
+            dom.insert(root, InstanceBuilder::new("Folder").with_name("LongAttr").with_property("Attributes", Variant::Attributes(attrs)));
+        }
+        _ => {
+            // thousands of instances carrying 16-byte values (UniqueId-sized columns) and many SharedStrings
+            let n = rng.gen_range(4_200..5_000);
+            for i in 0..n {
+                dom.insert(
+                    root,
+                    InstanceBuilder::new("VerifHugeD")
+                        .with_name(format!("d{}", i))
+                        .with_property("UVector3", Variant::Vector3(Vector3::new(i as f32, -(i as f32), 0.5)))
+                        .with_property("UInt64", Variant::Int64((i as i64) << 33))
+                        .with_property("USharedString", Variant::SharedString(SharedString::new(format!("payload {}", i % 700).into_bytes()))),
+                );
+            }
+        }
+    }
+    dom
+}
